@@ -315,8 +315,13 @@ int main(int argc, char** argv) {
     if (a.mode == "replay") {
         // an I line identifies (type, case#); cases are regenerated from (seed, case#): I lines carry "seed" implicitly via
         // the corpus file's header line "S <seed> <n>"; without it nothing is replayed.
-        char buf[1 << 16]; unsigned long long seed = 1; long n = 0;
-        while (std::fgets(buf, sizeof buf, stdin)) { if (buf[0] == 'S') { std::sscanf(buf + 1, "%llu %ld", &seed, &n); } }
+        // accepted inputs: a case file starting with "S <seed> <n>" (what this harness prints first), or a replay JSON written
+        // by the pipeline (contains "seed": <s>): the whole run of that seed is regenerated (cases depend only on seed and index)
+        static char buf[1 << 20]; unsigned long long seed = 1; long n = 0;
+        while (std::fgets(buf, sizeof buf, stdin)) {
+            if (buf[0] == 'S' && buf[1] == ' ') std::sscanf(buf + 1, "%llu %ld", &seed, &n);
+            else if (const char* q = std::strstr(buf, "\"seed\":")) { std::sscanf(q + 7, "%llu", &seed); if (n == 0) n = 760; }
+        }
         a.seed = seed; a.n = n;
     }
     std::printf("S %llu %ld\n", (unsigned long long)a.seed, a.n);
